@@ -21,6 +21,14 @@ class BodyFailed(Exception):
 @st.composite
 def plain_cases(draw):
     d = draw(st.sampled_from(impl.DRAFTS))
+    if draw(st.integers(0, 3)) == 0:
+        # type-centred schemas: every keyword gates on the instance's type, so a validator that has seen one value
+        # of a Python class must still type the next value of that class on its own merits
+        names = GS.T3 if d == 3 else GS.T4
+        t = draw(st.one_of(st.sampled_from(names), st.lists(st.sampled_from(names), min_size=1, max_size=2, unique=True)))
+        s = draw(st.sampled_from([{"type": t}, {"items": {"type": t}}, {"properties": {"a": {"type": t}}},
+                                  {"type": t, "minimum": 1}, {"additionalProperties": {"type": t}, "items": {"type": t}}]))
+        return {"kind": "plain", "draft": d, "schema": s, "instances": [], "probes": 8}
     s = draw(GS.root_schemas(d, 8))
     xs = draw(GI.instances_for(s, 3))
     return {"kind": "plain", "draft": d, "schema": s, "instances": xs, "probes": 20}
